@@ -13,6 +13,7 @@ mod c18;
 mod history;
 mod pool;
 mod render;
+mod trace_sink;
 mod util;
 mod val;
 
@@ -55,6 +56,10 @@ fn main() {
     let code = match cmd {
         "replay" => pool::replay_main(&args[2..]),
         "worker" => pool::worker_main(),
+        "trace" => match args.get(2).map(|s| s.as_str()) {
+            Some("sink") => trace_sink::main(&args[3..]),
+            _ => 2,
+        },
         _ => {
             eprintln!("usage: verif-harness replay|worker|trace ...");
             2
